@@ -204,7 +204,10 @@ class MPRNLRI(Attribute, Family):
                 raise Notify(
                     3, 0, 'unsupported family {} {} with extended next-hop capability enabled'.format(afi, safi)
                 )
-            length, _ = Family.size[(nh_afi, safi)]
+            # only the (family, next-hop family) pairs the capability negotiated change what the next hop may
+            # look like: any other family keeps the lengths of its own next hop (RFC 8950 section 4)
+            if nh_afi == afi or (afi, safi, nh_afi) in negotiated.nexthop:
+                length, _ = Family.size[(nh_afi, safi)]
 
         if len_nh not in length:
             raise Notify(
